@@ -235,6 +235,56 @@ pub fn apply_fault(t: &mut Tape, bytes: &[u8]) -> (Vec<u8>, String) {
             if s >= e {
                 return (bytes.to_vec(), "noop".into());
             }
+            if t.chance(0.3) {
+                // line-level edits
+                let text = String::from_utf8_lossy(&bytes[s..e]).to_string();
+                let mut lines: Vec<String> = text.split_inclusive('\n').map(|l| l.to_string()).collect();
+                if lines.len() < 2 {
+                    return (bytes.to_vec(), "noop".into());
+                }
+                // blanking keeps the length of the block, so all position ranges stay valid and the
+                // damaged tree really reaches the tree converter
+                let blank = |l: &str| -> String { l.chars().map(|c| if c == '\n' { '\n' } else { ' ' }).collect() };
+                let desc = match t.below(5) {
+                    0 => {
+                        let k = t.below(lines.len());
+                        lines.remove(k);
+                        "tree-delete-line"
+                    }
+                    4 => {
+                        let k = t.below(lines.len());
+                        lines[k] = blank(&lines[k]);
+                        "tree-blank-line"
+                    }
+                    1 => {
+                        let k = t.below(lines.len());
+                        let l = lines[k].clone();
+                        lines.insert(k, l);
+                        "tree-duplicate-line"
+                    }
+                    2 => {
+                        // empty the body of one braced tree (keep "{" and "}"), length preserved
+                        let opens: Vec<usize> = lines.iter().enumerate().filter(|(_, l)| l.trim() == "{").map(|(i, _)| i).collect();
+                        if let Some(&o) = opens.get(t.below(opens.len().max(1))) {
+                            if let Some(c) = (o + 1..lines.len()).find(|i| lines[*i].trim() == "}") {
+                                for l in lines.iter_mut().take(c).skip(o + 1) {
+                                    *l = blank(l);
+                                }
+                            }
+                        }
+                        "tree-empty-body"
+                    }
+                    _ => {
+                        let (a, b) = (t.below(lines.len()), t.below(lines.len()));
+                        lines.swap(a, b);
+                        "tree-swap-lines"
+                    }
+                };
+                let mut out = bytes[..s].to_vec();
+                out.extend_from_slice(lines.concat().as_bytes());
+                out.extend_from_slice(&bytes[e..]);
+                return (out, desc.into());
+            }
             let (from, to) = TEXT_EDITS[t.below(TEXT_EDITS.len())];
             let block = &bytes[s..e];
             let occ: Vec<usize> = block.windows(from.len()).enumerate().filter(|(_, w)| *w == from.as_bytes()).map(|(i, _)| i).take(4000).collect();
